@@ -145,7 +145,17 @@ class Flow(object):
                     return MergedDict(self.scope._global_names, snames)
                 else:
                     outer_names = set(snames).difference(self.scope.locals)
-                    return {n: snames[n] for n in outer_names}
+                    names = {n: snames[n] for n in outer_names}
+                    if self.scope.globals:
+                        # names declared global here are the module's, whatever the
+                        # enclosing functions bind under the same name
+                        tnames = self.scope.top.names
+                        for n in self.scope.globals:
+                            if n in tnames:
+                                names[n] = tnames[n]
+                            else:
+                                names.pop(n, None)
+                    return names
             else:
                 return {}
 
